@@ -18,6 +18,10 @@ import (
 )
 
 func (vm *VM) runFunc(fn *Function, vars []reflect.Value) error {
+	if verifEnabled {
+		verifBegin(vm)
+		defer verifEnd(vm)
+	}
 	vm.fn = fn
 	vm.vars = vars
 	var stop chan struct{}
@@ -27,6 +31,9 @@ func (vm *VM) runFunc(fn *Function, vars []reflect.Value) error {
 			select {
 			case <-stop:
 			case <-vm.env.ctx.Done():
+				if verifEnabled {
+					verifWatcher(vm)
+				}
 				atomic.StoreInt32(&vm.env.done, 1)
 			}
 		}()
@@ -89,6 +96,10 @@ func (vm *VM) run() (Addr, bool) {
 	done := vm.env.doneChan
 
 	for {
+
+		if verifEnabled {
+			verifStep(vm)
+		}
 
 		if done != nil && atomic.LoadInt32(&vm.env.done) == 1 {
 			return vm.stop()
@@ -1616,6 +1627,9 @@ func (vm *VM) run() (Addr, bool) {
 				if chosen == numCase {
 					return vm.stop()
 				}
+			}
+			if verifEnabled {
+				verifAfterSelect(vm)
 			}
 			step := numCase - chosen
 			var pc Addr
